@@ -9,6 +9,7 @@ def run(ctx):
     batch.run_mutex(ctx)
     batch.check_installed(ctx)
     batch.blackbox_stress(ctx)
+    batch.check_installed_prewrapped(ctx)
     if not ctx.quick:
         batch.stress_free_running(ctx)
 
